@@ -230,3 +230,110 @@ def fam_random(tier: str, rng: random.Random, flavour: str = "pre") -> Iterator[
                           out=out))
         drv = [Op("call", rng.randint(1, nfn), 0, rng.randint(1, 2)) for _ in range(rng.randint(1, 4))]
         yield Prog(fns, cons, snps, [], [], [drv], tag="random")
+
+
+# ------------------------------------------------------------------------------------------------------
+BODY_OUTCOMES = [RetV(11), RetV(0), RaiseV("Exception", 901), RaiseV("KI", 902), RaiseV("SysExit", 903),
+                 RaiseV("GenExit", 904)]
+
+
+def fam_post(tier: str, rng: random.Random) -> Iterator[dict]:
+    """C02: postcondition stacks x all truth assignments x body outcomes x kinds x sync/async."""
+    kinds = MEMBER_KINDS if tier == "thorough" else ["func", "method", "static", "getter", "setter", "init", "new", "class"]
+    for kind in kinds:
+        for has_inv in ([False] if kind in ("func", "static", "class") else [False, True]):
+            for npost in (0, 1, 2, 3):
+                for bits in itertools.product([True, False], repeat=npost):
+                    for out in BODY_OUTCOMES:
+                        if kind in ("init",) and out["k"] == "ret" and out["v"] != 0:
+                            continue
+                        if kind == "new" and out["k"] == "ret":
+                            out = RetV(101)
+                        if kind in ("setter", "deleter") and out["k"] == "ret" and out["v"] != 0:
+                            continue
+                        for isasync in (False, True):
+                            for shape, nsnap in (([], 0), ([[1]], 1 if npost else 0)):
+                                ef = ERR_FORMS[(npost + len(shape)) % 5] if tier != "thorough" else None
+                                for form in (dict.fromkeys([ef, "default"]) if ef else ERR_FORMS):
+                                    p = member_prog(kind, has_inv, shape, npost, nsnap, [True] * len(shape), bits, [form],
+                                                    False, isasync, body_out=out, tag="post")
+                                    if p is not None:
+                                        yield p
+
+
+def fam_snap(tier: str, rng: random.Random) -> Iterator[dict]:
+    """C08: snapshots x postconditions x precondition outcome x kinds x sync/async x capture flavours."""
+    for kind in MEMBER_KINDS:
+        for has_inv in ([False] if kind in ("func", "static", "class") else [False, True]):
+            for nsnap in (0, 1, 2):
+                for npost in (0, 1, 2):
+                    if nsnap and not npost:
+                        continue  # rejected at definition time (covered by the definition-time machine)
+                    for pre_ok in (True, False):
+                        for post_ok in (True, False):
+                            for isasync in (False, True):
+                                for cap_rv in (["bool"] if not isasync else ["bool", "corofn", "coro"]):
+                                    p = member_prog(kind, has_inv, [[1]], npost, nsnap, [pre_ok], [post_ok] * npost,
+                                                    ["default"], False, isasync, tag="snap")
+                                    if p is None:
+                                        continue
+                                    for s in p["snp"]:
+                                        s["rv"] = cap_rv
+                                    yield p
+    # sync callables given coroutine captures: ValueError instead of a bogus OLD
+    for cap_rv in ("corofn", "coro"):
+        for kind in ("func", "method"):
+            p = member_prog(kind, False, [], 1, 1, [], [True], ["default"], False, False, tag="snap-sync-coro")
+            assert p is not None
+            p["snp"][0]["rv"] = cap_rv
+            yield p
+
+
+def fam_err(tier: str, rng: random.Random) -> Iterator[dict]:
+    """C09: error forms x roles x kinds x sync/async (the violated contract is the only falsy one)."""
+    for kind in MEMBER_KINDS:
+        for role in ("pre", "post", "inv"):
+            for form in ERR_FORMS:
+                for lam in ([False, True] if form in ("default", "class") else [False]):
+                    for isasync in (False, True):
+                        if role == "inv":
+                            if kind in ("func", "static", "class"):
+                                continue
+                            p = member_prog(kind, True, [], 0, 0, [], [], ["default"], False, isasync, tag="err-inv")
+                            if p is None:
+                                continue
+                            inv = p["con"][-1]
+                            inv["err"] = form
+                            inv["lam"] = lam
+                            inv["truth"] = [True, False, False]
+                            yield p
+                        elif role == "pre":
+                            p = member_prog(kind, False, [[1]], 0, 0, [False], [], [form], lam and not isasync, isasync,
+                                            tag="err-pre")
+                            if p is not None:
+                                yield p
+                        else:
+                            for nsnap in (0, 1):
+                                p = member_prog(kind, False, [], 1, nsnap, [], [False], [form], lam and not isasync,
+                                                isasync, tag="err-post")
+                                if p is not None:
+                                    yield p
+
+
+def fam_order(tier: str, rng: random.Random) -> Iterator[dict]:
+    """C16: several simultaneously falsy contracts at different positions / levels; all truth assignments."""
+    shapes = [[[1, 2]], [[1, 2, 3]], [[1], [2]], [[1, 2], [3]], [[1], [2, 3]], [[1], [2], [3]], [[1, 2], [3, 4]]]
+    for kind in ("func", "method", "static", "setter"):
+        for shape in shapes:
+            n = _shape_ncons(shape)
+            for npost in (0, 2, 3):
+                for pre_bits in itertools.product([True, False], repeat=n):
+                    for post_bits in itertools.product([True, False], repeat=npost):
+                        if all(pre_bits) and all(post_bits):
+                            continue
+                        for isasync in (False, True):
+                            for lam in ((False, True) if not isasync else (False,)):
+                                p = member_prog(kind, kind == "method", shape, npost, 1 if npost else 0, pre_bits,
+                                                post_bits, ["default", "inst", "factory"], lam, isasync, tag="order")
+                                if p is not None:
+                                    yield p
